@@ -56,6 +56,10 @@ def _numbagg_wrapper(
             if np.issubdtype(array.dtype, from_):
                 array = array.astype(to_, copy=False)
 
+    if dtype is not None and func in ("nansum", "nanprod", "nansum_of_squares") and array.dtype.kind in "iu":
+        # accumulate in the (wider) result dtype: numbagg accumulates in the dtype of its input
+        array = array.astype(dtype, copy=False)
+
     func_ = getattr(numbagg.grouped, f"group_{func}")
 
     result = func_(
